@@ -283,12 +283,19 @@ def mutate_pfile(blob, edits):
 
 
 # repetitions are admitted to the work predicate: with every literal < 10000 their work is bounded by the input
-WORK_BAD = re.compile(r"\b(while|read)\b|/dev/|/proc/", re.I)
+WORK_BAD = re.compile(r"\b(while|read|maxnest|include)\b|/dev/|/proc/", re.I)
+MACRO_DEF = re.compile(r"^[ \t]*([A-Za-z_.][A-Za-z0-9_.]*):?[ \t]+macro\b|^[ \t]*macro[ \t]+([A-Za-z_.][A-Za-z0-9_.]*)", re.I | re.M)
 
 
 def lexical_work_ok(text):
     if len(text) > 65536 or WORK_BAD.search(text):
         return False
+    # a macro that is called more than once may call itself more than once: recursion with a branching factor
+    # describes exponential work (the nesting limit of 256 bounds the depth only)
+    for m in MACRO_DEF.finditer(text):
+        name = m.group(1) or m.group(2)
+        if len(re.findall(r"(?<![A-Za-z0-9_.])%s(?![A-Za-z0-9_.])" % re.escape(name), text, re.I)) > 2:
+            return False
     prod = 1
     for m in re.finditer(r"\d+", text):
         if len(m.group(0)) > 4:
